@@ -25,6 +25,11 @@ package index
 //@   trusted
 //@   assigns nothing
 //@   reads_fields HashOptions
+// ... unchanged: each collected value goes straight into the formatter whose
+// output is hashed (or is converted to bytes and hashed); it is not copied,
+// sorted, truncated or otherwise normalised on the way (LargeFiles, for one,
+// is order-sensitive: later patterns override earlier ones).
+//@   feeds_unchanged HashOptions into Appendf, Write
 
 // IndexState answers "equal" (the only answer on which indexing is skipped)
 // only on paths where the stored option hash equalled the current one, the
